@@ -188,6 +188,29 @@ fn sync_case(cs: u64, args: &Args, m16: &mut Monitor, m17: &mut Monitor, m01: &m
             let out = sync_session(&mut a.rep, &mut b.rep, &mut c0[0][1], &mut c1[0][0], &mut model, &b.set, &mut a.set, if mode_full { SessionMode::Full } else { SessionMode::OneResponse }, buf, &mut obs, &ctx);
             sessions += 1;
             corpus_push(corpus, &out.messages);
+            if guard == 1 {
+                // also record the other message kinds a transport sees: subscribe, unsubscribe, push
+                let mut extra = vec![];
+                let mut buf = vec![0u8; MAX_SYNC_MESSAGE_SIZE];
+                let mut rq = SyncRequester::new(a.rep.graph, CryptoRng);
+                let heads = c0[0][1].session_heads();
+                if let Ok(n) = rq.subscribe(&mut buf, a.rep.client.provider(), &heads, 5, u64::MAX, &mut a.rep.tbuf) {
+                    extra.push(buf[..n].to_vec());
+                }
+                if let Ok(n) = rq.unsubscribe(&mut buf) {
+                    extra.push(buf[..n].to_vec());
+                }
+                let mut rs = SyncResponder::new();
+                let known: Vec<aranya_runtime::Address> = a.rep.heads().unwrap_or_default().iter().take(50).map(|h| graphkit::audit::addr(&h.0, h.1)).collect();
+                if rs.start_session(0x5eed_u128 << 64 | guard as u128, b.rep.graph, u64::MAX, known).is_ok() {
+                    if let Ok(n) = rs.push(&mut buf, b.rep.client.provider(), &mut b.rep.bufs.traversal) {
+                        if n > 0 {
+                            extra.push(buf[..n].to_vec());
+                        }
+                    }
+                }
+                corpus_push(corpus, &extra);
+            }
             if out.aborted {
                 break;
             }
@@ -387,9 +410,30 @@ fn c18_input(m: &mut Monitor, input: &[u8], kind: &str, base_sid: Option<u128>, 
         m.violation(&format!("sync-panic:{}", p.site()), json!({"entry": what, "kind": kind, "input": hex(input), "panic": p.what}));
     };
     // 1. decode as any incoming message
-    match catch(|| SyncIncoming::decode(input).map(|x| matches!(x, SyncIncoming::Poll(_)))) {
+    match catch(|| {
+        SyncIncoming::decode(input).map(|x| match x {
+            SyncIncoming::Poll(_) => "poll",
+            SyncIncoming::Subscribe(s) => {
+                // touch the accessors a transport uses
+                let _ = (s.graph_id(), s.remain_open(), s.max_bytes(), s.heads().as_slice().len());
+                "subscribe"
+            }
+            SyncIncoming::Unsubscribe(u) => {
+                let _ = u.graph_id();
+                "unsubscribe"
+            }
+            SyncIncoming::Push(p) => {
+                let _ = (p.graph_id(), p.session_id());
+                "push"
+            }
+            SyncIncoming::Hello(_) => "hello",
+        })
+    }) {
         Err(p) => rec(m, "SyncIncoming::decode", p),
-        Ok(Ok(_)) => m.count("decoded_ok", 1),
+        Ok(Ok(kind)) => {
+            m.count("decoded_ok", 1);
+            m.seen("decoded_message_kinds", kind);
+        }
         Ok(Err(_)) => m.count("decode_rejected", 1),
     }
     // 2. as a poll to a responder with a real graph behind it
@@ -479,6 +523,10 @@ fn c18_input(m: &mut Monitor, input: &[u8], kind: &str, base_sid: Option<u128>, 
             }
         }
     }
+    // 3b. subscribe responses
+    if let Err(p) = catch(|| aranya_runtime::SubscribeResponse::decode(input).is_ok()) {
+        rec(m, "SubscribeResponse::decode", p);
+    }
     // 4. push path
     let r = catch(|| {
         if let Ok(SyncIncoming::Push(p)) = SyncIncoming::decode(input) {
@@ -567,6 +615,29 @@ fn main() {
         }
     }
     if want18 {
+        // hello-family messages have no public encoder: build them by hand from the wire layout
+        // (postcard: variant, variant, bytes(32) graph id, ...), using ids of a generated graph
+        {
+            let mut r = Rng::new(args.seed ^ 0x4e110);
+            let gid = r.bytes(32);
+            let hid = r.bytes(32);
+            let mut hello = vec![4u8, 2, 32];
+            hello.extend(&gid);
+            hello.push(32);
+            hello.extend(&hid);
+            hello.extend([0xac, 0x02]); // max_cut 300 as varint
+            corpus.push(hello);
+            let mut unsub = vec![4u8, 1, 32];
+            unsub.extend(&gid);
+            corpus.push(unsub);
+            let mut sub = vec![4u8, 0, 32];
+            sub.extend(&gid);
+            sub.extend([1, 0, 10, 0x80, 0x94, 0xeb, 0xdc, 0x03, 2, 5]); // three Durations (secs, nanos)
+            corpus.push(sub);
+            // SubscribeResponse
+            corpus.push(vec![0]);
+            corpus.push(vec![1]);
+        }
         corpus.sort();
         corpus.dedup();
         m18.count("corpus_messages", corpus.len() as u64);
